@@ -40,6 +40,13 @@ CLAIMED['C01'] = dict(
     note='Trusted: rustc MIR, the driver, tables/spec_layout.json (the oracle, transcribed from the spec document linked by the crate), std container contracts. Loop unrolling bound 2, helper inlining depth 3 (deepest real chain 3).',
     technique='static analysis: bounded CFG path enumeration of read schedules vs spec table + MIR provenance (origin) dataflow')
 
+CLAIMED['C11'] = dict(
+    category='other',
+    text='Static check of the three palette decoders and of index validation over rustc MIR: layouts of the new and both legacy palette chunks equal the spec table (path enumeration); entry id = first + loop index and is the insertion key; legacy offsets are cumulative across packets, count byte 0 means 256, alpha is 255; the 0x0004/0x0011 decoders are siblings differing exactly in scale_6bit_to_8bit (which rejects >= 64); effect analysis of parse_frame gives palette precedence (new unconditional, legacy only under is_none, no other writer); every Pixels::Indexed construction is dominated by a successful whole-slice validate_indexed_pixels on the same data under Some(palette), and cel and tileset pixels reach the sprite only through that validation. Decides these clauses for all inputs; the numeric 6->8 bit map is recorded, not asserted.',
+    design_ref='DESIGN.md section 4, C11',
+    note='Trusted: rustc MIR, the driver, spec table, IntMap/HashMap semantics. The 0->0, 63->255 value fact of the scaling formula is not decided (value-level).',
+    technique='static analysis: read-schedule path enumeration vs spec + sibling comparison + effect analysis + must-pass-through dominance')
+
 ALL = ['C%02d' % i for i in range(1, 20)]
 
 
